@@ -3,7 +3,10 @@ through the real sync and asyncio driver stacks over SimDevice, observed canonic
 two stacks can be compared WITH EACH OTHER (bytes written, results, exception class names,
 device-side execution log, the timeout_ops the calls leave behind).  Device lines may be slow
 (latency in scripted time, see VClock / VirtualLoop): the real timeout decorators of both stacks
-decide whether a call times out."""
+decide whether a call times out.  A silent device is a scripted wait too (HORIZON): an armed
+timeout_ops ends it through the real decorators, which is what the error-path family
+(gen_error_scenario) relies on; failed operations are observed as exception type + message class +
+explicit cause chain (error_class), next to the bytes written and the state afterwards."""
 import asyncio
 import atexit
 import contextlib
@@ -192,6 +195,14 @@ class LatencyMixin:
             self.device.out = out
 
 
+# A device that has nothing more to say is SILENT, it does not end the world: the client's read blocks, and if an operation
+# timeout is armed (timeout_ops in effect != 0) it is the timeout that ends the read.  Both scripted transports therefore wait
+# HORIZON scripted seconds on a read with nothing pending before they give up with Starved ("blocks for ever"): the sync one
+# advances VCLOCK (an armed SIGALRM timer falls due on the way and its handler raises from inside the read), the asyncio one
+# sleeps on the VirtualLoop (the decorator's wait_for cancels it).  HORIZON is far beyond every timeout of the generators.
+HORIZON = 1.0e6
+
+
 class ScriptedTransport(LatencyMixin, OnceFaultMixin, simdevice.ScriptedTransport):
     def read(self):
         m = self._due()
@@ -199,7 +210,11 @@ class ScriptedTransport(LatencyMixin, OnceFaultMixin, simdevice.ScriptedTranspor
             VCLOCK.advance(m[1])               # a due timer's handler raises from here, like a signal in a blocking read
             m[2] = True
             m = self._due()
-        return self._read()
+        try:
+            return self._read()
+        except Starved:
+            VCLOCK.advance(HORIZON)            # silence: an armed operation timeout expires here
+            raise
 
 
 class AsyncScriptedTransport(LatencyMixin, OnceFaultMixin, simdevice.AsyncScriptedTransport):
@@ -209,7 +224,11 @@ class AsyncScriptedTransport(LatencyMixin, OnceFaultMixin, simdevice.AsyncScript
             await asyncio.sleep(m[1])          # virtual seconds (VirtualLoop); cancelled by the decorator's wait_for
             m[2] = True
             m = self._due()
-        return self._read()
+        try:
+            return self._read()
+        except Starved:
+            await asyncio.sleep(HORIZON)       # silence: an armed operation timeout (wait_for) expires here
+            raise
 
 
 class DialogDevice(SimDevice):
@@ -221,8 +240,14 @@ class DialogDevice(SimDevice):
     a refused answer prints `abort_out` and the prompt.  Whatever is typed after that is an ordinary line.
     Written from the vendors' CLI behaviour (clear counters / reload / copy ... dialogues), independent of scrapli."""
 
-    def __init__(self, *a, dialogs=None, latency=None, **kw):
+    def __init__(self, *a, dialogs=None, latency=None, auth_attempts=None, auth_hang=None, mute=(), **kw):
         super().__init__(*a, **kw)
+        # error-path behaviours (the "errors" family): a password dialogue that gives up after 1 / 2 / 3 (default) wrong
+        # attempts, or that hangs (prints nothing more, e.g. its AAA server does not answer) after a wrong / after any
+        # password; lines after which the device goes silent for good (mode "*": in any mode)
+        self.auth_attempts = auth_attempts
+        self.auth_hang = auth_hang
+        self.mute = {tuple(x) for x in mute}
         self.dialogs = dialogs or {}
         self.latency = latency or {}      # line -> seconds the device needs before it prints the answer to that line
         self.delays = []                  # [offset in self.out, seconds, paid]: set when such a line is entered
@@ -256,9 +281,20 @@ class DialogDevice(SimDevice):
             line = bytes(self.line).decode("latin-1").strip()
             if self.dialog is None and self.latency.get(line):
                 self.delays.append([len(self.out), float(self.latency[line]), False])
+            if self.dialog is None and self.mute and ((self.mode, line) in self.mute or ("*", line) in self.mute):
+                self.silent_after = min(len(self.plain), self.silent_after if self.silent_after is not None else len(self.plain))
             spec = self.dialogs.get(line)
             if spec is None or self.dialog is not None or line in self._table():
+                asking = self.dialog
+                if asking is not None and self.auth_hang and (
+                        self.auth_hang == "always" or bytes(self.line).decode("latin-1") != self.secret):
+                    self.hidden_lines.append(bytes(self.line))      # the password is taken, nothing is ever printed again
+                    self.line = bytearray()
+                    self.silent_after = min(len(self.plain), self.silent_after if self.silent_after is not None else len(self.plain))
+                    return
                 super()._return()
+                if asking is None and self.dialog is not None and self.auth_attempts:
+                    self.dialog = (self.dialog[0], 4 - max(1, min(3, int(self.auth_attempts))))      # SimDevice gives up at 3
                 return
             raw = bytes(self.line)
             self.line = bytearray()
@@ -286,7 +322,8 @@ def build(sc, stack):
     d = sc["device"]
     kind = sc["kind"]
     plat = "cisco_iosxe" if kind == "network" else kind
-    dev = DialogDevice(plat, dialogs=d.get("dialogs"), latency=d.get("latency"), host=d.get("host", "router1"), user=d.get("user", "admin"), login_mode=d.get("login_mode"),
+    dev = DialogDevice(plat, dialogs=d.get("dialogs"), latency=d.get("latency"), auth_attempts=d.get("auth_attempts"),
+                       auth_hang=d.get("auth_hang"), mute=d.get("mute", ()), host=d.get("host", "router1"), user=d.get("user", "admin"), login_mode=d.get("login_mode"),
                     outputs={k: v.encode("latin-1") for k, v in d.get("outputs", {}).items()},
                     secret=d.get("secret"), nl=d.get("nl", "\r\n").encode(), banner=d.get("banner", ""),
                     refuse=[tuple(x) for x in d.get("refuse", [])], ignore=[tuple(x) for x in d.get("ignore", [])],
@@ -296,6 +333,9 @@ def build(sc, stack):
     if "exc" in fault:
         fault["exc"] = _exc(fault["exc"])
     kw = dict(sc.get("driver_kwargs") or {})
+    for h in ("on_open", "on_close"):
+        if h in kw:                       # named hook of HOOKS (scenarios are JSON)
+            kw[h] = hook(kw[h], stack)
     drv = make_driver(kind, stack, dev, tuple(sc.get("policy", ("whole",))), None, **kw)
     tcls = ScriptedTransport if stack == "sync" else AsyncScriptedTransport
     t = tcls(dev, tuple(sc.get("policy", ("whole",))), fault, base_transport_args=drv._base_transport_args)
@@ -304,6 +344,67 @@ def build(sc, stack):
     motd = d.get("motd", "").encode("latin-1")
     dev.start(motd)
     return dev, drv
+
+
+class HookFailed(Exception):
+    """what a user's own on_open / on_close raises in the scenarios"""
+
+
+def _hook_steps(name):
+    """a named user hook as a list of steps (method name, args, kwargs) | ("raise", exception class)"""
+    from scrapli.exceptions import ScrapliCommandFailure
+    return {
+        "raise_value": [("raise", ValueError)],
+        "raise_own": [("raise", HookFailed)],
+        "raise_scrapli": [("raise", ScrapliCommandFailure)],
+        "bad_priv": [("acquire_priv", ["no_such_level"], {})],
+        "cmd": [("send_command", ["terminal length 0"], {})],
+        "cmd_then_raise": [("send_command", ["terminal length 0"], {}), ("raise", HookFailed)],
+        "configs": [("send_configs", [["no shutdown"]], {})],
+        "escalate": [("acquire_priv", ["configuration"], {})],
+        "prompt": [("get_prompt", [], {})],
+    }[name]
+
+
+HOOK_NAMES = {"generic": ["raise_value", "raise_own", "raise_scrapli", "cmd", "cmd_then_raise", "prompt"],
+              "network": ["raise_value", "raise_own", "raise_scrapli", "bad_priv", "cmd", "cmd_then_raise", "configs", "escalate", "prompt"]}
+
+
+def hook(name, stack):
+    """the sync function / the coroutine function a scenario's on_open / on_close name stands for ("none": no hook)"""
+    if name in (None, "none"):
+        return None
+    steps = _hook_steps(name)
+    if stack == "sync":
+        def fn(conn):
+            for st in steps:
+                if st[0] == "raise":
+                    raise st[1]("hook %s" % name)
+                getattr(conn, st[0])(*st[1], **st[2])
+        return fn
+
+    async def afn(conn):
+        for st in steps:
+            if st[0] == "raise":
+                raise st[1]("hook %s" % name)
+            await getattr(conn, st[0])(*st[1], **st[2])
+    return afn
+
+
+def error_class(e):
+    """outcome class of a failed operation beyond its type name: the class of its message (quoted names, numbers and the
+    twins' naming difference removed; the two stacks are compared with each other, never with a literal) and the types
+    of the exceptions it was explicitly raised from"""
+    import re
+    m = re.sub(r"'[^']*'|\"[^\"]*\"", "'_'", str(e))
+    m = re.sub(r"0x[0-9a-fA-F]+|\d+(\.\d+)?", "#", m)
+    m = re.sub(r"(?i)async_?", "", m)
+    m = " ".join(m.lower().split())[:100]
+    chain, c = [], e.__cause__          # explicit `raise ... from` only: the implicit context of a timeout legitimately differs
+    while c is not None and len(chain) < 6:      # (asyncio.TimeoutError / CancelledError vs a signal handler's frame)
+        chain.append(type(c).__name__)
+        c = c.__cause__
+    return [type(e).__name__, m, chain]
 
 
 def canon(r):
@@ -380,10 +481,12 @@ def _has(drv, op):
     return hasattr(drv, n)
 
 
-def _finish(dev, drv, obs):
+def _finish(dev, drv, obs, errs=()):
     t = drv.transport
     return {
         "ops": obs,
+        "errors": [list(x) for x in errs],       # [operation index, exception type, message class, types it was raised from]
+        "transport_open": bool(t.opened),
         "writes": [w.hex() for w in t.writes],
         "sent": b"".join(t.writes).hex(),
         "device_log": [[m, l.hex(), o.hex()] for (m, l, o) in dev.log],
@@ -400,7 +503,7 @@ def _finish(dev, drv, obs):
 def run_sync(sc):
     with scripted_timers():
         dev, drv = build(sc, "sync")
-        obs = []
+        obs, errs = [], []
         for op in sc["ops"]:
             if not _has(drv, op):
                 obs.append(["skip", op[0]])
@@ -413,12 +516,13 @@ def run_sync(sc):
                 break
             except Exception as e:  # noqa
                 obs.append(["exc", type(e).__name__])
-        return _finish(dev, drv, obs)
+                errs.append([len(obs) - 1] + error_class(e))
+        return _finish(dev, drv, obs, errs)
 
 
 async def _run_async(sc):
     dev, drv = build(sc, "async")
-    obs = []
+    obs, errs = [], []
     for op in sc["ops"]:
         if not _has(drv, op):
             obs.append(["skip", op[0]])
@@ -434,7 +538,8 @@ async def _run_async(sc):
             break
         except Exception as e:  # noqa
             obs.append(["exc", type(e).__name__])
-    return _finish(dev, drv, obs)
+            errs.append([len(obs) - 1] + error_class(e))
+    return _finish(dev, drv, obs, errs)
 
 
 def run_async_batch(scs):
@@ -466,7 +571,7 @@ def known_signature(sc, a, b, d):
     handler has closed and ScrapliConnectionNotOpened comes out; the asyncio stack raises ScrapliTimeout.  Recognised by its
     observation only: nothing but the operation results differ, and the first differing operation is a send_and_read with
     exactly these two exception classes."""
-    if d != ["ops"] or len(a["ops"]) != len(b["ops"]):
+    if d not in (["ops"], ["errors", "ops"]) or len(a["ops"]) != len(b["ops"]):
         return None
     for op, x, y in zip(sc["ops"], a["ops"], b["ops"]):
         if x != y:
@@ -604,7 +709,7 @@ def gen_interactive(rng, kind, dev, channel_level=False):
 # scenario families: what a scenario mostly consists of.  FN_FAMILY maps a paired function (the name behind the
 # class in the twin table) to the families whose scenarios reach it; c06.py searches those families first when the
 # twin-diff obligation of that function breaks.
-FAMILIES = ["interactive", "commands", "and_read", "prompt", "configs", "priv", "lifecycle", "lists", "timeouts"]
+FAMILIES = ["interactive", "commands", "and_read", "prompt", "configs", "priv", "lifecycle", "lists", "timeouts", "errors"]
 _LISTS = ["commands", "lists", "timeouts"]
 _CONFS = ["configs", "lists", "timeouts"]
 FN_FAMILY = {
@@ -616,9 +721,9 @@ FN_FAMILY = {
     "send_commands": _LISTS, "send_commands_from_file": ["lists", "timeouts"],
     "get_prompt": ["prompt", "priv", "timeouts"], "read": FAMILIES, "_channel_lock": FAMILIES,
     "send_config": _CONFS, "send_configs": _CONFS, "send_configs_from_file": ["lists", "timeouts"], "_abort_config": ["configs", "lists"],
-    "_acquire_appropriate_privilege_level": ["priv", "configs", "interactive"], "_escalate": ["priv"], "_deescalate": ["priv"],
-    "acquire_priv": ["priv"], "register_configuration_session": ["priv", "configs"],
-    "open": ["lifecycle"], "close": ["lifecycle"], "__init__": ["lifecycle"], "__enter__": ["lifecycle"], "__exit__": ["lifecycle"],
+    "_acquire_appropriate_privilege_level": ["priv", "configs", "interactive", "errors"], "_escalate": ["errors", "priv"],
+    "_deescalate": ["errors", "priv"], "acquire_priv": ["errors", "priv"], "register_configuration_session": ["priv", "configs"],
+    "open": ["lifecycle", "errors"], "close": ["lifecycle", "errors"], "__init__": ["lifecycle"], "__enter__": ["lifecycle"], "__exit__": ["lifecycle"],
     "commandeer": ["lifecycle"],
     # the two variants (function / coroutine) of the decorators of scrapli/decorators.py, paired by gen_twins as
     # "decorators:timeout_modifier" / "decorators:timeout_wrapper"
@@ -630,7 +735,7 @@ def families_of(fn):
     """scenario families for a twin-table function name like 'channel:Channel.send_inputs_interact'"""
     name = fn.split(":", 1)[-1].split(".")[-1]
     if name.endswith("_on_open") or name.endswith("_on_close"):
-        return ["lifecycle", "priv"]
+        return ["lifecycle", "priv", "errors"]
     return list(FN_FAMILY.get(name, FAMILIES))
 
 
@@ -909,8 +1014,146 @@ def gen_op(rng, kind, outputs):
     return ["close"]
 
 
+# ------------------------------------------------------------------------------------------------
+# error paths (family "errors"): what happens when an operation FAILS must be the same in both stacks too — the
+# exception's type and message class, the bytes written up to the failure and the state afterwards (cached privilege
+# level, device mode, transport open or closed, what the next operations do, a re-open).  Device side:
+#   auth        a password dialogue behind the escalation line (enable / start shell user root) x secondary password
+#               right / wrong / empty / not given x the device re-prompting 3 / 2 times, refusing at once, hanging after a
+#               wrong / after any password, refusing or ignoring the escalation line, going silent after it;
+#   deescalate  the device refuses / ignores / goes silent after a line that leads DOWN (disable, end, exit, abort, tclquit,
+#               exit configuration-mode) while the operations walk up and down the privilege levels;
+#   on_open     the user's own on_open / on_close hooks fail (raise, ask for an unknown level, send a command / a config to
+#               a device that hangs on a session set-up line), incl. close and re-open afterwards.
+# The connection's timeout_ops is armed in most of them, so that silence ends in the operation timeout of the real
+# decorators (see HORIZON above) and the code behind `except ScrapliTimeout` runs.
+# ------------------------------------------------------------------------------------------------
+ERR_KINDS = ["cisco_iosxe", "cisco_iosxe", "cisco_nxos", "arista_eos", "network", "network", "juniper_junos", "cisco_iosxr", "generic"]
+ERR_TIMEOUTS = [0.35, 2.1, 2.1, 20.1, 20.1, 0]
+AUTH_LINE = {"cisco_iosxe": ("exec", "enable", "privilege_exec"), "network": ("exec", "enable", "privilege_exec"),
+             "cisco_nxos": ("exec", "enable", "privilege_exec"), "arista_eos": ("exec", "enable", "privilege_exec"),
+             "juniper_junos": ("exec", "start shell user root", "root_shell")}
+AUTH_BEHAVIOURS = ["reprompt", "reprompt", "two", "refuse_now", "hang_wrong", "hang_always", "refuse_line", "ignore_line", "mute_line"]
+DOWN_LINES = ("disable", "end", "exit", "abort", "tclquit", "exit configuration-mode")
+SETUP_LINES = ["terminal length 0", "terminal width 512", "terminal width 511", "set cli screen-length 0",
+               "set cli screen-width 511", "set cli complete-on-space off", "exit"]
+
+
+def _line_fault(rng, dev, pair, how):
+    dev.setdefault({"refuse": "refuse", "ignore": "ignore", "mute": "mute"}[how], []).append(list(pair))
+
+
+def gen_error_scenario(rng, kind=None, mode=None):
+    kind = kind or rng.choice(ERR_KINDS)
+    plat = "cisco_iosxe" if kind == "network" else kind
+    outputs = {c: rng.choice(OUTPUTS) for c in rng.sample(SHOW, rng.randint(1, 2))}
+    cmds = list(outputs)
+    dev = {"host": rng.choice(["router1", "r1", "core-sw.lab"]), "outputs": outputs, "nl": rng.choice(["\r\n", "\r\n", "\n"])}
+    kw = {"timeout_ops": rng.choice(ERR_TIMEOUTS)}
+    modes = ["on_open"] if kind == "generic" else (["deescalate", "on_open"] if kind not in AUTH_LINE else
+                                                   ["auth", "auth", "auth", "deescalate", "deescalate", "on_open", "on_open"])
+    mode = mode if mode in modes else rng.choice(modes)
+    meta = {"mode": mode}
+    ops = [["open"]]
+    levels = PRIVS[kind] + (["root_shell"] if kind == "juniper_junos" else [])
+    post = lambda: rng.choice([["get_prompt"], ["send_command", rng.choice(cmds), {}], ["close"], ["open"]] + (      # noqa: E731
+        [["acquire_priv", rng.choice(levels)], ["send_configs", [rng.choice(CONF)], {}]] if kind != "generic" else []))
+    if mode == "auth":
+        m, line, target = AUTH_LINE[kind]
+        if "exec" in simdevice.PLATFORMS[plat]()["login_modes"]:
+            dev["login_mode"] = "exec"
+        if rng.random() < 0.85:
+            dev["secret"] = "s3cr3t"
+        sec = rng.choice(["wrong", "wrong", "wrong", "", "absent", "s3cr3t"])
+        if sec != "absent":
+            kw["auth_secondary"] = sec
+        how = rng.choice(AUTH_BEHAVIOURS)
+        meta.update(secondary={"wrong": "wrong", "": "empty", "absent": "absent", "s3cr3t": "right"}[sec], behaviour=how,
+                    device_asks=("secret" in dev))
+        if how == "two":
+            dev["auth_attempts"] = 2
+        elif how == "refuse_now":
+            dev["auth_attempts"] = 1
+        elif how in ("hang_wrong", "hang_always"):
+            dev["auth_hang"] = how[5:]
+        elif how != "reprompt":
+            _line_fault(rng, dev, (m, line), how.split("_")[0])
+        # the platforms' own on_open escalates already (the failure is then inside open); "none": it is the operation's
+        if rng.random() < 0.55:
+            kw["on_open"] = "none"
+        elif rng.random() < 0.2:
+            kw["on_open"] = "escalate"
+        meta["on_open"] = kw.get("on_open", "default")
+        r = rng.random()
+        if kind == "juniper_junos":
+            ops.append(["acquire_priv", "root_shell"])
+        elif r < 0.45:
+            ops.append(["acquire_priv", target])
+        elif r < 0.6:
+            ops.append(["acquire_priv", "configuration"])
+        elif r < 0.8:
+            ops.append(["send_command", rng.choice(cmds), {}])
+        elif r < 0.9:
+            ops.append(["send_configs", [rng.choice(CONF)], {}])
+        else:
+            ops.append(["send_interactive", [[rng.choice(cmds), "#", False]], {"privilege_level": target}])
+    elif mode == "deescalate":
+        t = simdevice.PLATFORMS[plat]()["trans"]
+        pairs = [[m, l] for m in sorted(t) for l in sorted(t[m]) if l in DOWN_LINES and m in levels]
+        m, line = rng.choice(pairs)
+        how = rng.choice(["refuse", "ignore", "mute", "mute"])
+        _line_fault(rng, dev, (m, line), how)
+        meta.update(behaviour=how, line=line)
+        if kind in ENABLE:
+            dev["login_mode"] = rng.choice(["exec", "privilege_exec", "privilege_exec"])
+            if rng.random() < 0.4:
+                dev["secret"] = "s3cr3t"
+                kw["auth_secondary"] = "s3cr3t"
+        if rng.random() < 0.3:
+            kw["on_open"] = "none"
+        ops.append(["send_configs", [rng.choice(CONF)], {}] if (m.startswith("configuration") and rng.random() < 0.5)
+                   else ["acquire_priv", m])
+        r = rng.random()
+        lower = levels[:max(1, levels.index(m))]
+        if r < 0.5:
+            ops.append(["acquire_priv", rng.choice(lower)])
+        elif r < 0.8:
+            ops.append(["send_command", rng.choice(cmds), {}])
+        else:
+            ops.append(["close"])
+    else:
+        names = HOOK_NAMES["generic" if kind == "generic" else "network"]
+        h = rng.choice(names + ["default"])
+        if h != "default":
+            kw["on_open"] = h
+        hc = rng.choice(["default", "default", "raise_value", "raise_own", "cmd", "none"])
+        if hc != "default":
+            kw["on_close"] = hc
+        meta.update(on_open=h, on_close=hc)
+        if kind in ENABLE:
+            dev["login_mode"] = rng.choice(["exec", "privilege_exec", "privilege_exec"])
+        r = rng.random()
+        if r < 0.45:          # the device hangs on a session set-up line (a hook's own command or the platform's)
+            dev["mute"] = [["*", rng.choice(SETUP_LINES)]]
+            meta["behaviour"] = "mute_setup_line"
+        elif r < 0.55 and kind != "generic":
+            dev["ignore"] = [["privilege_exec", "configure terminal"]] if kind != "juniper_junos" else [["exec", "configure"]]
+            meta["behaviour"] = "ignore_configure"
+        else:
+            meta["behaviour"] = "healthy"
+        ops.append(rng.choice([["get_prompt"], ["send_command", rng.choice(cmds), {}], ["close"]]))
+        if rng.random() < 0.6:
+            ops += [["close"], ["open"]]
+    for _ in range(rng.choice([1, 1, 2, 3])):
+        ops.append(post())
+    return {"kind": kind, "device": dev, "driver_kwargs": kw, "policy": gen_policy(rng) if rng.random() < 0.6 else ["whole"],
+            "fault": None, "family": "errors", "err": meta, "ops": ops}
+
+
 def gen_scenario(rng, kind=None, faulty=None, family=None):
     """family: one of FAMILIES -> most operations of the scenario come from that family"""
+    if family == "errors":
+        return gen_error_scenario(rng, kind)
     kind = kind or rng.choice(PLATFORMS)
     plat = "cisco_iosxe" if kind == "network" else kind
     outputs = {}
@@ -1049,4 +1292,34 @@ def corpus():
                 for op in ops[1:]:       # one timed operation per scenario: a timeout closes the connection
                     out.append({"kind": kind, "device": slow, "driver_kwargs": {"timeout_ops": conn}, "policy": ["bytes", 5],
                                 "fault": None, "family": "timeouts", "ops": [["open"], op, ["get_prompt"]]})
+    # error paths: wrong / empty / missing secondary password against a device that re-prompts, refuses at once, hangs;
+    # a refused / ignored / unanswered de-escalation; failing on_open / on_close hooks; the operation timeout armed or not
+    for kind in ("cisco_iosxe", "network", "arista_eos", "cisco_nxos"):
+        for T in (2.1, 0):
+            for sec in ("wrong", "", None):
+                for extra in ({}, {"auth_attempts": 1}, {"auth_hang": "wrong"}, {"mute": [["exec", "enable"]]}):
+                    dkw = {"timeout_ops": T, "on_open": "none"}
+                    if sec is not None:
+                        dkw["auth_secondary"] = sec
+                    out.append({"kind": kind, "device": dict({"login_mode": "exec", "secret": "s3cr3t", "outputs": dict(outs)}, **extra),
+                                "driver_kwargs": dkw, "policy": ["whole"], "fault": None, "family": "errors",
+                                "ops": [["open"], ["acquire_priv", "privilege_exec"], ["get_prompt"], ["open"], ["get_prompt"]]})
+            for how in ("refuse", "ignore", "mute"):
+                out.append({"kind": kind, "device": {"login_mode": "privilege_exec", "outputs": dict(outs), how: [["configuration", "end"]]},
+                            "driver_kwargs": {"timeout_ops": T}, "policy": ["bytes", 3], "fault": None, "family": "errors",
+                            "ops": [["open"], ["send_configs", ["no shutdown"], {}], ["send_command", "show clock", {}], ["get_prompt"]]})
+    out.append({"kind": "juniper_junos", "device": {"secret": "s3cr3t", "outputs": dict(outs)},
+                "driver_kwargs": {"timeout_ops": 2.1, "auth_secondary": "wrong"}, "policy": ["whole"], "fault": None, "family": "errors",
+                "ops": [["open"], ["acquire_priv", "root_shell"], ["get_prompt"]]})
+    for kind in ("generic", "cisco_iosxe", "juniper_junos"):
+        for h in HOOK_NAMES["generic" if kind == "generic" else "network"]:
+            for hc in ("raise_own", None):
+                dkw = {"timeout_ops": 2.1, "on_open": h}
+                if hc:
+                    dkw["on_close"] = hc
+                out.append({"kind": kind, "device": {"outputs": dict(outs)}, "driver_kwargs": dkw, "policy": ["whole"], "fault": None,
+                            "family": "errors", "ops": [["open"], ["get_prompt"], ["close"], ["open"], ["send_command", "show clock", {}]]})
+        out.append({"kind": kind, "device": {"outputs": dict(outs), "mute": [["*", "terminal length 0"], ["*", "set cli screen-length 0"]]},
+                    "driver_kwargs": {"timeout_ops": 2.1, "on_open": "cmd" if kind == "generic" else "cmd_then_raise"},
+                    "policy": ["whole"], "fault": None, "family": "errors", "ops": [["open"], ["get_prompt"], ["close"]]})
     return out
